@@ -18,6 +18,8 @@ fn case(inp: &[u64]) -> Result<(), String> {
             let f: VFunc<usize, usize, BitFieldVec<usize>, $S, $E> = b.try_build_func(FromIntoIterator::from(0..n), FromIntoIterator::from((0..n).map(val)), no_logging![]).map_err(|e| format!("build failed: {}", e))?;
             if f.len() != n { return Err(format!("len {} != {}", f.len(), n)); }
             for k in 0..n { if f.get(k) != val(k) { return Err(format!("get({}) = {} expected {}", k, f.get(k), val(k))); } }
+            // the unaligned query path (values have at most 16 bits: within the widths get_unaligned admits; the builder pads the backend)
+            for k in 0..n { if f.get_unaligned(k) != val(k) { return Err(format!("get_unaligned({}) = {} expected {}", k, f.get_unaligned(k), val(k))); } }
         } else {
             let mut b = VBuilder::<usize, Box<[usize]>, $S, $E>::default().offline(flags & 1 != 0).low_mem(flags & 2 != 0).seed(seed).max_num_threads(if flags & 8 != 0 { 1 } else { 8 });
             if let Some(h) = hint { b = b.expected_num_keys(h); }
